@@ -50,6 +50,16 @@ void free(void *);
 '''
 
 
+SIMD_MODELS = {
+    '_mm_loadu_si128': 'static struct qx_vec16 qx__mm_loadu_si128(const struct qx_vec16 *p) { struct qx_vec16 v; v.b[0] = ((const unsigned char *)p)[0]; v.b[1] = ((const unsigned char *)p)[1]; v.b[2] = ((const unsigned char *)p)[2]; v.b[3] = ((const unsigned char *)p)[3]; v.b[4] = ((const unsigned char *)p)[4]; v.b[5] = ((const unsigned char *)p)[5]; v.b[6] = ((const unsigned char *)p)[6]; v.b[7] = ((const unsigned char *)p)[7]; v.b[8] = ((const unsigned char *)p)[8]; v.b[9] = ((const unsigned char *)p)[9]; v.b[10] = ((const unsigned char *)p)[10]; v.b[11] = ((const unsigned char *)p)[11]; v.b[12] = ((const unsigned char *)p)[12]; v.b[13] = ((const unsigned char *)p)[13]; v.b[14] = ((const unsigned char *)p)[14]; v.b[15] = ((const unsigned char *)p)[15]; return v; }',
+    '_mm_storeu_si128': 'static void qx__mm_storeu_si128(struct qx_vec16 *p, struct qx_vec16 v) { ((unsigned char *)p)[0] = v.b[0]; ((unsigned char *)p)[1] = v.b[1]; ((unsigned char *)p)[2] = v.b[2]; ((unsigned char *)p)[3] = v.b[3]; ((unsigned char *)p)[4] = v.b[4]; ((unsigned char *)p)[5] = v.b[5]; ((unsigned char *)p)[6] = v.b[6]; ((unsigned char *)p)[7] = v.b[7]; ((unsigned char *)p)[8] = v.b[8]; ((unsigned char *)p)[9] = v.b[9]; ((unsigned char *)p)[10] = v.b[10]; ((unsigned char *)p)[11] = v.b[11]; ((unsigned char *)p)[12] = v.b[12]; ((unsigned char *)p)[13] = v.b[13]; ((unsigned char *)p)[14] = v.b[14]; ((unsigned char *)p)[15] = v.b[15]; }',
+    '_mm_setzero_si128': 'static struct qx_vec16 qx__mm_setzero_si128(void) { struct qx_vec16 z; z.b[0] = 0; z.b[1] = 0; z.b[2] = 0; z.b[3] = 0; z.b[4] = 0; z.b[5] = 0; z.b[6] = 0; z.b[7] = 0; z.b[8] = 0; z.b[9] = 0; z.b[10] = 0; z.b[11] = 0; z.b[12] = 0; z.b[13] = 0; z.b[14] = 0; z.b[15] = 0; return z; }',
+    '_mm256_loadu_si256': 'static struct qx_vec32 qx__mm256_loadu_si256(const struct qx_vec32 *p) { struct qx_vec32 v; v.b[0] = ((const unsigned char *)p)[0]; v.b[1] = ((const unsigned char *)p)[1]; v.b[2] = ((const unsigned char *)p)[2]; v.b[3] = ((const unsigned char *)p)[3]; v.b[4] = ((const unsigned char *)p)[4]; v.b[5] = ((const unsigned char *)p)[5]; v.b[6] = ((const unsigned char *)p)[6]; v.b[7] = ((const unsigned char *)p)[7]; v.b[8] = ((const unsigned char *)p)[8]; v.b[9] = ((const unsigned char *)p)[9]; v.b[10] = ((const unsigned char *)p)[10]; v.b[11] = ((const unsigned char *)p)[11]; v.b[12] = ((const unsigned char *)p)[12]; v.b[13] = ((const unsigned char *)p)[13]; v.b[14] = ((const unsigned char *)p)[14]; v.b[15] = ((const unsigned char *)p)[15]; v.b[16] = ((const unsigned char *)p)[16]; v.b[17] = ((const unsigned char *)p)[17]; v.b[18] = ((const unsigned char *)p)[18]; v.b[19] = ((const unsigned char *)p)[19]; v.b[20] = ((const unsigned char *)p)[20]; v.b[21] = ((const unsigned char *)p)[21]; v.b[22] = ((const unsigned char *)p)[22]; v.b[23] = ((const unsigned char *)p)[23]; v.b[24] = ((const unsigned char *)p)[24]; v.b[25] = ((const unsigned char *)p)[25]; v.b[26] = ((const unsigned char *)p)[26]; v.b[27] = ((const unsigned char *)p)[27]; v.b[28] = ((const unsigned char *)p)[28]; v.b[29] = ((const unsigned char *)p)[29]; v.b[30] = ((const unsigned char *)p)[30]; v.b[31] = ((const unsigned char *)p)[31]; return v; }',
+    '_mm256_storeu_si256': 'static void qx__mm256_storeu_si256(struct qx_vec32 *p, struct qx_vec32 v) { ((unsigned char *)p)[0] = v.b[0]; ((unsigned char *)p)[1] = v.b[1]; ((unsigned char *)p)[2] = v.b[2]; ((unsigned char *)p)[3] = v.b[3]; ((unsigned char *)p)[4] = v.b[4]; ((unsigned char *)p)[5] = v.b[5]; ((unsigned char *)p)[6] = v.b[6]; ((unsigned char *)p)[7] = v.b[7]; ((unsigned char *)p)[8] = v.b[8]; ((unsigned char *)p)[9] = v.b[9]; ((unsigned char *)p)[10] = v.b[10]; ((unsigned char *)p)[11] = v.b[11]; ((unsigned char *)p)[12] = v.b[12]; ((unsigned char *)p)[13] = v.b[13]; ((unsigned char *)p)[14] = v.b[14]; ((unsigned char *)p)[15] = v.b[15]; ((unsigned char *)p)[16] = v.b[16]; ((unsigned char *)p)[17] = v.b[17]; ((unsigned char *)p)[18] = v.b[18]; ((unsigned char *)p)[19] = v.b[19]; ((unsigned char *)p)[20] = v.b[20]; ((unsigned char *)p)[21] = v.b[21]; ((unsigned char *)p)[22] = v.b[22]; ((unsigned char *)p)[23] = v.b[23]; ((unsigned char *)p)[24] = v.b[24]; ((unsigned char *)p)[25] = v.b[25]; ((unsigned char *)p)[26] = v.b[26]; ((unsigned char *)p)[27] = v.b[27]; ((unsigned char *)p)[28] = v.b[28]; ((unsigned char *)p)[29] = v.b[29]; ((unsigned char *)p)[30] = v.b[30]; ((unsigned char *)p)[31] = v.b[31]; }',
+    '_mm256_setzero_si256': 'static struct qx_vec32 qx__mm256_setzero_si256(void) { struct qx_vec32 z; z.b[0] = 0; z.b[1] = 0; z.b[2] = 0; z.b[3] = 0; z.b[4] = 0; z.b[5] = 0; z.b[6] = 0; z.b[7] = 0; z.b[8] = 0; z.b[9] = 0; z.b[10] = 0; z.b[11] = 0; z.b[12] = 0; z.b[13] = 0; z.b[14] = 0; z.b[15] = 0; z.b[16] = 0; z.b[17] = 0; z.b[18] = 0; z.b[19] = 0; z.b[20] = 0; z.b[21] = 0; z.b[22] = 0; z.b[23] = 0; z.b[24] = 0; z.b[25] = 0; z.b[26] = 0; z.b[27] = 0; z.b[28] = 0; z.b[29] = 0; z.b[30] = 0; z.b[31] = 0; return z; }',
+}
+
+
 def sanitize(s):
     s = s.strip()
     if s.startswith('Qentem::'):
@@ -391,6 +401,8 @@ class Lowerer:
         self.extra_fns = []      # lambda helper functions text
         self.used_names = {}
         self.tmp_counter = 0
+        self.need_vec = set()
+        self.intrinsics = set()
 
     # ------------------------------------------------------------------ types
     def resolve_named(self, name):
@@ -402,6 +414,8 @@ class Lowerer:
         name = self.ast.canon(name)
         if name in BUILTIN:
             return BUILTIN[name], 'scalar', None
+        if re.fullmatch(r'qx_vec\d+', name):
+            return 'struct ' + name, 'record', None
         if name in self.local_alias:
             t = self.ctype(self.local_alias[name])
             return t
@@ -432,6 +446,11 @@ class Lowerer:
             return t
         s = t if isinstance(t, str) else (t.get('desugaredQualType') or t.get('qualType'))
         s = norm_tname(s)
+        mv = re.search(r'__attribute__\(\(__vector_size__\((\d+) \* sizeof\(([a-z ]+)\)\)\)\) ([a-z ]+)', s)
+        if mv:
+            nbytes = int(mv.group(1)) * {'long long': 8, 'char': 1, 'short': 2, 'int': 4, 'float': 4, 'double': 8}[mv.group(2)]
+            self.need_vec.add(nbytes)
+            s = s.replace(mv.group(0), 'qx_vec%d' % nbytes)
         if '(' in s and not re.search(r'\(\*\)|\(&\)', s) and ')' in s and not s.endswith(']'):
             # function type or function pointer: only void* representation is supported
             raise LowerError('function type %r' % s)
@@ -706,7 +725,7 @@ class Lowerer:
             self.fn_done[m] = proto + self.contract_text(cname, spec) + ';\n'
             return
         info['has_body'] = True
-        ctx = {'node': n, 'ret': ret, 'cname': cname, 'loop_ix': 0, 'spec': spec, 'locals': {}, 'info': info}
+        ctx = {'node': n, 'ret': ret, 'cname': cname, 'loop_ix': 0, 'spec': spec, 'locals': {}, 'info': info, 'temps': []}
         saved = self.cur, self.local_alias
         self.cur = ctx
         self.local_alias = dict(self.local_alias)
@@ -718,6 +737,9 @@ class Lowerer:
             if spec.get('ghost_returns') and ret.base == 'void' and not ret.derivs:
                 i = text.rstrip().rfind('}')
                 text = text[:i] + '  /* ghost */ ' + ' '.join(g.rstrip(';') + ';' for g in spec['ghost_returns']) + '\n}\n'
+            if ctx['temps']:
+                i = text.index('{')
+                text = text[:i + 1] + '\n  /* hoisted temporaries */ ' + ' '.join(ctx['temps']) + text[i + 1:]
         finally:
             self.cur, self.local_alias = saved
         info['loops'] = ctx['loop_ix']
@@ -964,7 +986,7 @@ class Lowerer:
         if k == 'DoStmt':
             body, cond = n['inner'][0], n['inner'][1]
             lc = self.loop_contract(d)
-            return ld + I + 'do\n' + self.stmt_block(body, d) + I + 'while (%s)\n%s%s;\n' % (self.expr(cond), lc, I)
+            return ld + I + 'do\n' + lc + self.stmt_block(body, d) + I + 'while (%s);\n' % self.expr(cond)
         if k == 'ForStmt':
             init, condvar, cond, inc, body = n['inner']
             lcpos = self.cur['loop_ix']
@@ -1299,8 +1321,8 @@ class Lowerer:
         if k in ('ExprWithCleanups', 'CXXBindTemporaryExpr', 'MaterializeTemporaryExpr'):
             return self.record_value(a['inner'][0], t)
         if k in ('CXXConstructExpr', 'CXXTemporaryObjectExpr'):
-            tmp = self.new_tmp()
-            return '({ %s; %s; %s; })' % (t.decl(tmp, keep_const=False), self.construct_into('&' + tmp, t, a), tmp)
+            tmp = self.hoisted_tmp(t)
+            return '(%s, %s)' % (self.construct_into('&' + tmp, t, a), tmp)
         if k == 'CXXFunctionalCastExpr' or (k == 'ImplicitCastExpr' and a.get('castKind') in ('ConstructorConversion', 'NoOp')):
             return self.record_value(a['inner'][0], t)
         return self.expr(a)
@@ -1308,6 +1330,14 @@ class Lowerer:
     def new_tmp(self):
         self.tmp_counter += 1
         return 'qx_tmp%d' % self.tmp_counter
+
+    def hoisted_tmp(self, t):
+        """declare a function-scope temporary of type t; returns its name"""
+        nm = self.new_tmp()
+        if self.cur is None or 'temps' not in self.cur:
+            raise LowerError('temporary needed outside a function body')
+        self.cur['temps'].append(t.decl(nm, keep_const=False) + ';')
+        return nm
 
     def addr_of(self, a):
         """C expression for the address of (the object denoted by) a"""
@@ -1318,10 +1348,9 @@ class Lowerer:
             inner = a['inner'][0]
             t = self.ctype(a['type'])
             if t.is_record():
-                tmp = self.new_tmp()
-                return '({ static %s; %s = %s; &%s; })' % (t.decl(tmp, keep_const=False), tmp, self.record_value(inner, t), tmp) if False else \
-                    '(&(%s){0} == 0 ? 0 : %s)' % (t.cast(), self._materialize_record(inner, t))
-            return '(&(%s){%s})' % (t.cast(), self.expr(inner))
+                return self._materialize_record(inner, t)
+            tmp = self.hoisted_tmp(t)
+            return '(%s = %s, &%s)' % (tmp, self.expr(inner), tmp)
         if k == 'ImplicitCastExpr' and a.get('castKind') in ('NoOp',):
             return self.addr_of(a['inner'][0])
         if k == 'ImplicitCastExpr' and a.get('castKind') in ('DerivedToBase', 'UncheckedDerivedToBase'):
@@ -1340,20 +1369,21 @@ class Lowerer:
             t = self.ctype(a['type'])
             if t.is_record():
                 return self._materialize_record(a, t)
-            return '(&(%s){%s})' % (t.cast(), self.expr(a))
+            tmp = self.hoisted_tmp(t)
+            return '(%s = %s, &%s)' % (tmp, self.expr(a), tmp)
         return '(&(%s))' % self.expr(a)
 
     def _materialize_record(self, inner, t):
-        # compound literal holding a constructed temporary (block lifetime, as in C++ full-expression or longer)
+        # temporary object: a function-scope variable assigned inside the expression (lifetime is at least the C++ one;
+        # only trivially destructible temporaries are supported here)
         k = inner.get('kind')
         while k in ('CXXBindTemporaryExpr', 'ExprWithCleanups', 'CXXFunctionalCastExpr') or (k == 'ImplicitCastExpr' and inner.get('castKind') in ('ConstructorConversion', 'NoOp')):
             inner = inner['inner'][0]
             k = inner.get('kind')
+        tmp = self.hoisted_tmp(t)
         if k in ('CXXConstructExpr', 'CXXTemporaryObjectExpr'):
-            tmp = self.new_tmp()
-            return '({ %s = &(%s){0}; %s; %s; })' % (CType(t.base, [('ptr', False)], False, 'record', t.rec).decl(tmp), t.cast(), self.construct_into(tmp, t, inner), tmp)
-        return '(&(%s){%s}[0])' % (t.cast() + '[1]', self.expr(inner)) if False else '({ %s = &(%s){0}; *%s = %s; %s; })' % (
-            CType(t.base, [('ptr', False)], False, 'record', t.rec).decl('qx_m'), t.cast(), 'qx_m', self.expr(inner), 'qx_m')
+            return '(%s, &%s)' % (self.construct_into('&' + tmp, t, inner), tmp)
+        return '(%s = %s, &%s)' % (tmp, self.expr(inner), tmp)
 
     def expr(self, e, stmt=False):
         k = e.get('kind')
@@ -1638,6 +1668,12 @@ class Lowerer:
         return '(*%s)' % s if rt.is_ref() else s
 
     def builtin_call(self, nm, callee, args):
+        if nm.startswith('_mm'):
+            # SIMD intrinsics are replaced by byte-level models (trusted, printed in the prelude)
+            if nm not in SIMD_MODELS:
+                raise LowerError('no model for intrinsic %s' % nm)
+            self.intrinsics.add(nm)
+            return 'qx_%s(%s)' % (nm, ', '.join(self.expr(a) for a in args))
         return '%s(%s)' % (nm, ', '.join(self.expr(a) for a in args))
 
     def e_CXXMemberCallExpr(self, e):
@@ -1725,9 +1761,12 @@ class Lowerer:
             params.append(t.decl(rd['name'], keep_const=False) if not t.is_ref() else t.decl(rd['name']))
             actual.append(rd['name'])
         saved = self.cur
-        self.cur = {'node': call, 'ret': rt, 'cname': hname, 'loop_ix': 0, 'spec': {}, 'locals': {}}
+        self.cur = {'node': call, 'ret': rt, 'cname': hname, 'loop_ix': 0, 'spec': {}, 'locals': {}, 'temps': []}
         try:
             text = self.stmt(body, 0)
+            if self.cur['temps']:
+                i = text.index('{')
+                text = text[:i + 1] + '\n  ' + ' '.join(self.cur['temps']) + text[i + 1:]
         finally:
             self.cur = saved
         self.extra_fns.append('/* lambda in %s, free variables passed by value */\nstatic %s %s(%s)\n%s' % (
@@ -1755,6 +1794,10 @@ class Lowerer:
     def emit(self):
         self.lower_all()
         parts = [PRELUDE]
+        for nb in sorted(self.need_vec):
+            parts.append('struct qx_vec%d { unsigned char b[%d]; };  /* model of the %d-byte SIMD register type */' % (nb, nb, nb))
+        for nm in sorted(self.intrinsics):
+            parts.append('/* trusted byte-level model of intrinsic %s */ %s' % (nm, SIMD_MODELS[nm]))
         parts += self.out_types
         for m in self.glob_order:
             parts.append(self.glob_done[m])
@@ -1769,12 +1812,13 @@ class Lowerer:
         return '\n'.join(p for p in parts if p)
 
 
-def dump_ast(driver_cpp, include_dirs, defines=(), out_json=None, std='c++17'):
+def dump_ast(driver_cpp, include_dirs, defines=(), out_json=None, std='c++17', extra=()):
     cmd = ['clang++', '-std=' + std, '-fsyntax-only', '-Wno-everything']
     for i in include_dirs:
         cmd += ['-I', i]
     for dname in defines:
         cmd += ['-D' + dname]
+    cmd += list(extra)
     cmd += ['-Xclang', '-ast-dump=json', driver_cpp]
     r = subprocess.run(cmd, stdout=subprocess.PIPE, stderr=subprocess.PIPE)
     if r.returncode != 0:
